@@ -77,12 +77,18 @@ def run_job(job):
                 y, mo, dd, h, mi, s = rng.choice(ANCHORS)
                 t = datetime.datetime(y, mo, dd, h, mi, s)
                 if rng.random() < 0.5:
-                    t = datetime.datetime(rng.randrange(1971, 2037), rng.randrange(1, 13), rng.randrange(1, 29),
+                    t = datetime.datetime(rng.choice([rng.randrange(1971, 2037), rng.randrange(1971, 2037), rng.randrange(1903, 1970), rng.randrange(2038, 2400)]),
+                                          rng.randrange(1, 13), rng.randrange(1, 29),
                                           rng.randrange(24), rng.randrange(60), rng.randrange(60))
                 prec = rng.choice(["day", "hour", "minute", "second"])
                 lit = render_literal(rng, t, prec)
                 iv = model.date_interval(lit, tz)
                 quoted = True if (" " in lit or ":" in lit.split(" ")[0]) else rng.random() < 0.6
+                if t.year < 1971:
+                    quoted = True       # unquoted, the lexer takes a year before 1970 for arithmetic (its "optimistic assumption")
+                    res.count("literals_before_1970")
+                elif t.year > 2037:
+                    res.count("literals_after_2038")
             if iv is None:
                 res.inc("model rejected literal " + lit)
                 continue
@@ -96,7 +102,7 @@ def run_job(job):
             offsets.add(a + (b - a) / 2)
             files = {}
             for i, o in enumerate(sorted(offsets)):
-                if o.year < 1971 or o.year > 2037:
+                if o.year < 1902 or o.year > 2400:
                     continue
                 ts = to_ts(o.replace(microsecond=0), tz)
                 p = os.path.join(d, "f%02d" % i)
